@@ -28,11 +28,15 @@ type vhandler struct {
 	fixErr  error
 	replyFn func(h *vhandler, method string) (*Message, error)
 	onCall  func(h *vhandler, c *vcall)
+	quiet   bool // record nothing (the double is then safe to call from several goroutines)
 }
 
 var errVHandler = errors.New("handler failure")
 
 func (h *vhandler) rec(conn *Conn, c vcall) (*Message, error) {
+	if h.quiet {
+		return NewOKMessage(), nil
+	}
 	c.conn = conn
 	if conn != nil {
 		c.db = conn.Database()
